@@ -297,8 +297,22 @@ def run(ctx):
         root = os.path.join(work, "cases", str(k))
         return k, scrape.emit_all(ctx["idlc"], root, [f["path"] for f in fs["files"]], fs["main"])
 
+    # the numbers do not depend on flags: the same file set once more with --no-typed-objects (even
+    # cases) or --marking (odd cases), all backends, tables scraped the same way
+    def emit_flagged(k):
+        fs = cases[k]
+        if fs.get("big"):
+            return k, None
+        root = os.path.join(work, "cases", str(k) + "_flags")
+        gen.write_fileset(fs, root)
+        mk = os.path.join(root, "MARK")
+        open(mk, "w").write("Copyright (c) someone\nAll rights reserved.\n")
+        extra = ["--no-typed-objects"] if k % 2 == 0 else ["--marking", mk]
+        return k, scrape.emit_all(ctx["idlc"], root, [f["path"] for f in fs["files"]], fs["main"], extra=extra)
+
     with ThreadPoolExecutor(max_workers=vlib.NCPU) as ex:
         emitted = dict(ex.map(emit, range(len(cases))))
+        emitted_flagged = dict(ex.map(emit_flagged, range(len(cases))))
     defs, labels = [], {}
     scrape_cache = {}
     exit_mismatch = []
@@ -333,6 +347,10 @@ def run(ctx):
         # (hierarchies with thousands of methods: outcome and MIR numbering only)
         tabs = scrape_tables(root, fs, emitted[k], which) if accepted and not fs.get("big") else []
         scrape_cache[k] = tabs
+        ef = emitted_flagged.get(k)
+        if tabs and ef and all(v[0] == 0 for (lang, role), v in ef[fs["main"]].items() if lang != "java"):
+            suffix = "+no-typed-objects" if k % 2 == 0 else "+marking"
+            tabs = tabs + [(lab + suffix, rows) for lab, rows in scrape_tables(os.path.join(work, "cases", str(k) + "_flags"), fs, ef, which)]
         labels[k] = [t[0] for t in tabs]
         # the driver's exit status must match the library-level outcome
         for (lang, role), (rc2, _, diag) in emitted[k][fs["main"]].items():
